@@ -1,0 +1,51 @@
+//go:build verif
+
+package aqua
+
+import (
+	"context"
+
+	"gitlab.com/aquachain/aquachain/aquadb"
+	"gitlab.com/aquachain/aquachain/core"
+	"gitlab.com/aquachain/aquachain/core/bloombits"
+	"gitlab.com/aquachain/aquachain/params"
+)
+
+// Add-only exports for the verification harness (/verif, property C16).
+
+// VerifBloomNode is the bloom-bits part of a full node over db: the production bloom
+// indexer (NewBloomIndexer, params.BloomBitsBlocks), the production retrieval handlers
+// (startBloomHandlers) and the API backend methods the log filters call
+// (AquaApiBackend.BloomStatus / ServiceFilter).
+type VerifBloomNode struct {
+	aqua *Aquachain
+}
+
+func VerifNewBloomNode(cfg *params.ChainConfig, db aquadb.Database) *VerifBloomNode {
+	a := &Aquachain{
+		chainConfig:   cfg,
+		chainDb:       db,
+		shutdownChan:  make(chan bool),
+		bloomRequests: make(chan chan *bloombits.Retrieval),
+		bloomIndexer:  NewBloomIndexer(cfg, db, params.BloomBitsBlocks),
+	}
+	a.ApiBackend = &AquaApiBackend{aqua: a}
+	a.startBloomHandlers()
+	return &VerifBloomNode{aqua: a}
+}
+
+func (n *VerifBloomNode) Indexer() *core.ChainIndexer { return n.aqua.bloomIndexer }
+
+func (n *VerifBloomNode) BloomStatus() (uint64, uint64) { return n.aqua.ApiBackend.BloomStatus() }
+
+func (n *VerifBloomNode) ServiceFilter(ctx context.Context, session *bloombits.MatcherSession) {
+	n.aqua.ApiBackend.ServiceFilter(ctx, session)
+}
+
+// Stop shuts the handlers and the indexer down.
+func (n *VerifBloomNode) Stop() {
+	close(n.aqua.shutdownChan)
+	n.aqua.bloomIndexer.Close()
+}
+
+const VerifBloomConfirms = bloomConfirms
